@@ -1,6 +1,6 @@
 (* C02 — Parsing is lossless: tree leaves are exactly the lexed tokens.  Property theorems only.
    Tokens are indices into the lexed tuple, so "never discarded, duplicated or reordered" is `tokens = seq start len`. *)
-From SF Require Import Base.Prelude Base.Sort Model.MatchResult Proofs.MatchResultP.
+From SF Require Import Base.Prelude Base.Sort Model.MatchResult Proofs.MatchResultP Proofs.MatchResultOps.
 
 (* For EVERY match result, token count and nesting depth: if the certificate checker accepts it, materialising the tree
    (MatchResult.apply) succeeds -- no "Segment skip ahead" ValueError, no AssertionError, no IndexError -- and the leaves of the
@@ -34,3 +34,22 @@ Proof. reflexivity. Qed.
 Example C02_unordered_children_duplicate_refuted :
   exists ts, apply 6 (MR 0 5 None [] [MR 3 5 (Some 1) [] []; MR 3 3 None [(3, 0)] []]) = Ok ts /\ tokens_of_l ts <> seq 0 5.
 Proof. eexists. split; [vm_compute; reflexivity|vm_compute; discriminate]. Qed.
+
+(* The certificate is not only checked on finished root results: the two operations every grammar builds results with preserve it.
+   Wrapping a certified result in a segment class (no extra inserts) is certified; appending two certified classed non-empty results
+   that do not overlap is certified, holds exactly those two children, and apply returns the tokens of both and of the gap. *)
+Theorem C02_wrap_keeps_certificate : forall n m outer m',
+  wf_b n m = true -> wrap m outer [] = Ok m' -> wf_b n m' = true.
+Proof. exact wrap_keeps_certificate. Qed.
+Print Assumptions C02_wrap_keeps_certificate.
+
+Theorem C02_append_classed_lossless : forall n a b ka kb m',
+  wf_b n a = true -> wf_b n b = true -> mcls a = Some ka -> mcls b = Some kb -> 0 < mlen a -> 0 < mlen b ->
+  append a b [] = Ok m' -> exists ts, apply n m' = Ok ts /\ tokens_of_l ts = seq (mstart a) (mstop b - mstart a).
+Proof. exact append_classed_lossless. Qed.
+Print Assumptions C02_append_classed_lossless.
+
+Example C02_append_example :
+  append (MR 1 2 (Some 3) [] []) (MR 3 5 (Some 4) [(4, 0)] []) [] = Ok (MR 1 5 None [] [MR 1 2 (Some 3) [] []; MR 3 5 (Some 4) [(4, 0)] []])
+  /\ wf_b 6 (MR 1 2 (Some 3) [] []) = true /\ wf_b 6 (MR 3 5 (Some 4) [(4, 0)] []) = true.
+Proof. repeat split; reflexivity. Qed.
